@@ -165,18 +165,22 @@ def addMat : List (List Rat) → List (List Rat) → List (List Rat)
   | a :: as, b :: bs => addVec 1 a b :: addMat as bs
   | as, _ => as
 
+/-- the outer loop `for (x = 0; se.isValid(); se.advance(), ++x)`: row `x` of `retval.values` is updated with the
+    x-th enumerated state tuple; rows beyond the enumeration are left as they are -/
+def mapRows (rowOp : List Rat → List Nat → List Rat) : List (List Rat) → List (List Nat) → List (List Rat)
+  | r :: rs, e :: es => rowOp r e :: mapRows rowOp rs es
+  | rs, [] => rs
+  | [], _ :: _ => []
+
+/-- the inner loop over the action enumerator for one state tuple `se` -/
+def bmRowOp (sp ac : List Nat) (ret rhs : BM) (row : List Rat) (se : List Nat) : List Rat :=
+  let rX := toIndexPartialKPF rhs.tag sp ret.tag se 0 1
+  addEnum (fun ae => (rhs.vals.getD rX []).getD (toIndexPartialKPF rhs.atag ac ret.atag ae 0 1) 0) row (enumTag ac ret.atag)
+
 /-- `plusEqualSubset(space, actions, BasisMatrix & retval, const BasisMatrix & rhs)` -/
 def bmSubsetPlus (sp ac : List Nat) (ret rhs : BM) : BM :=
   if ret.tag.length = rhs.tag.length ∧ ret.atag.length = rhs.atag.length then { ret with vals := addMat ret.vals rhs.vals }
-  else
-    let rowOp : List Rat → List Nat → List Rat := fun row se =>
-      let rX := toIndexPartialKPF rhs.tag sp ret.tag se 0 1
-      addEnum (fun ae => (rhs.vals.getD rX []).getD (toIndexPartialKPF rhs.atag ac ret.atag ae 0 1) 0) row (enumTag ac ret.atag)
-    let rec rows : List (List Rat) → List (List Nat) → List (List Rat)
-      | r :: rs, e :: es => rowOp r e :: rows rs es
-      | rs, [] => rs
-      | [], _ :: _ => []
-    { ret with vals := rows ret.vals (enumTag sp ret.tag) }
+  else { ret with vals := mapRows (bmRowOp sp ac ret rhs) ret.vals (enumTag sp ret.tag) }
 
 /-- `plusEqual(space, actions, FactoredMatrix2D &, const BasisMatrix &)` -/
 def fmMergeLoop (sp ac : List Nat) (basis : BM) : FM → Option FM
